@@ -57,6 +57,18 @@ def warm():
     try:
         _PM = PerformanceModel.load(os.path.join(pkg, 'performance', 'sample_performance_model.toml'))
         _PMS = [_PM]
+        # a variant of the first table with the same aircraft name and ceiling but 10 % more fuel flow
+        try:
+            import tomllib
+
+            with open(os.path.join(pkg, 'performance', 'sample_performance_model.toml'), 'rb') as fh:
+                data = tomllib.load(fh)
+            fp = data['flight_performance']
+            col = fp['cols'].index('fuel_flow')
+            fp['data'] = [[v * 1.1 if i == col else v for i, v in enumerate(row)] for row in fp['data']]
+            _PMS.append(PerformanceModel.from_data(data))
+        except Exception:  # noqa: BLE001
+            pass
         second = os.path.join(pkg, 'performance', 'random_test_ptf.toml')
         if os.path.exists(second):
             try:
@@ -375,8 +387,8 @@ def gen_op(rng, cfg, bid, opts):
          'lf': rng.choice([0.7, 1.0, round(0.5 + rng.random() / 2, 3)])}
     if rng.random() < 0.3:
         m['fid'] = rng.randint(1, 10 ** 6)
-    if rng.random() < 0.3:
-        m['pm'] = 1
+    if rng.random() < 0.4:
+        m['pm'] = rng.choice([1, 2])
     kind = 'valid'
     fault = None
     if r < cfg['p_valid']:
